@@ -352,6 +352,24 @@ def check_case(ctx, case):
                     ctx.violation("M:union_and_catalog_histograms_treat_a_roundoff_event_differently", {"got": tdr[:5], "counted_everywhere": wantA[:5], "counted_nowhere": wantB[:5]})
             elif not o.ok and not isinstance(o.exc, ValueError):
                 ctx.unexpected(o, "M_test:synthetic_roundoff_event")
+        # ---------------- the observation is, event for event, one of the synthetic catalogs (obs_class 'copy'): the same function of the
+        # same gridded counts - its statistic equals that catalog's entry of the test distribution bit for bit (no tie is lost to
+        # rounding: the quantiles are fractions of comparisons with the observed statistic), in the S, PL and M tests
+        if case["obs_class"] == "copy" and n_obs > 0 and not FX:
+            jcopy = next(i for i, c in enumerate(cats) if sorted(c) == sorted(obs))
+            for name, fn, skip_empty in (("S", CE.spatial_test, True), ("PL", CE.pseudolikelihood_test, False), ("M", CE.magnitude_test, True)):
+                o = call(fn, forecast(), observed(), verbose=VB)
+                if not o.ok or o.value is None:
+                    continue
+                tdc = ctx.normalize(name + ":copy", lambda: ([float(x) for x in o.value.test_distribution], float(o.value.observed_statistic)))
+                if tdc is None:
+                    continue
+                pos = sum(1 for i, c in enumerate(cats[:jcopy]) if not (skip_empty and len(c) == 0))
+                ctx.count("observation_is_a_copy_of_a_synthetic_catalog")
+                if len(tdc[0]) != sum(1 for c in cats if not (skip_empty and len(c) == 0)):
+                    continue      # distribution length is judged elsewhere
+                if tdc[0][pos] != tdc[1] and not (math.isnan(tdc[0][pos]) and math.isnan(tdc[1])):
+                    ctx.violation(name + ":identical_catalog_and_observation_get_different_statistics", {"entry": tdc[0][pos], "observed": tdc[1], "catalog": jcopy})
         # ---------------- a quadtree region that does not cover all synthetic events: catalog 0 keeps its first event inside (northern
         # tiles '0','1'), the others are moved to the southern hemisphere.  The mean rates cannot be formed from events outside the
         # region: the forecast is refused (ValueError), never evaluated with the outside events booked into some cell
@@ -433,9 +451,30 @@ def cases(draw):
         cats[draw(st.integers(0, J - 1))] = [[used[0], 0]]
     sampled = sorted(set(k for c in cats for k, _ in c))
     unsampled = [k for k in range(nc) if k not in sampled]
-    cls = draw(st.sampled_from(["empty", "single", "sampled", "sampled", "mixed", "all_unsampled", "many"]))
+    cls = draw(st.sampled_from(["empty", "single", "sampled", "sampled", "mixed", "all_unsampled", "many", "copy", "copy"]))
     mk = lambda ks, n: [[draw(st.sampled_from(ks)), draw(st.integers(0, nm - 1))] for _ in range(n)]
-    if cls == "empty":
+    if cls == "copy":
+        if draw(st.booleans()):
+            # a larger catalog given by its per-magnitude-bin counts (22 events and more: the sizes at which c / N * N stops being c for some c)
+            if draw(st.booleans()):
+                counts = draw(st.lists(st.integers(0, 40), min_size=nm, max_size=nm).filter(lambda v: sum(v) >= 22))
+            else:
+                # ... with bin counts c for which c / N * N != c in double precision (7 of 41, 27 of 49; about 7% of all pairs), as far
+                # as they fit; the last bin takes the rest
+                N = draw(st.integers(22, 160))
+                odd = [c for c in range(1, N) if c / N * N != c] or [1]
+                counts, left = [], N
+                for _ in range(nm - 1):
+                    c = draw(st.sampled_from([x for x in odd if x <= left] or [0]))
+                    counts.append(c)
+                    left -= c
+                counts.append(left)
+            big = [[used[(i + m) % len(used)], m] for m, c in enumerate(counts) for i in range(c)]
+            cats[draw(st.integers(0, J - 1))] = big
+            obs = [list(e) for e in big]
+        else:
+            obs = [list(e) for e in next(c for c in cats if c)]       # event for event one of the synthetic catalogs
+    elif cls == "empty":
         obs = []
     elif cls == "single":
         obs = mk(sampled, 1)
